@@ -39,7 +39,7 @@ class Menu(object):
     self.raise_in_handler = raise_in_handler
 
 
-VAR_KINDS = ('W', 'R', 'RW', 'AUG', 'DEL', 'AND', 'OR', 'NOT', 'IFEXP', 'CMP', 'COMP', 'DEFR', 'DEFW', 'LAM', 'CALL')
+VAR_KINDS = ('W', 'R', 'RW', 'AUG', 'DEL', 'AND', 'OR', 'NOT', 'IFEXP', 'CMP', 'COMP', 'DEFR', 'DEFW', 'DEFIFW', 'LAM', 'CALL')
 NOVAR_KINDS = ('TUP', 'ATTR', 'SUB', 'RATTR', 'RSUB', 'raise', 'S', 'PASS', 'LAMBDA', 'CALLG', 'CLASS', 'FAIL')
 
 
